@@ -7,11 +7,11 @@ is just a list of (x_i, x_j) evaluations), both `prefer_speed_over_memory` setti
 `scale_by_freq` settings.  All definitions are those of `Nitime/Model/CohBase.lean` read at K = ℂ.
 
   cacheCoherency      mirrors  cache_fft + cache_to_coherency (SparseCoherenceAnalyzer.coherency)
-  cachePsd            mirrors  cache_fft + cache_to_psd  — INTENDED; `cachePsdCurrent` mirrors today's code
+  cachePsd            mirrors  cache_fft + cache_to_psd
   cacheRelPhase       mirrors  cache_to_relative_phase
-  linspaceFreq        mirrors  utils.get_freqs (today's frequency vector of the cache)
+  rfftFreq            mirrors  utils.get_freqs (the frequency vector of the cache and of both analyzers)
   welchFreq           mirrors  the dense frequency vector (mlab: np.fft.fftfreq)
-  cacheDefaultOverlapCurrent / denseDefaultOverlap   mirror the two default-overlap expressions
+  cacheDefaultOverlap / denseDefaultOverlap   mirror the two default-overlap expressions
 -/
 import Nitime.Props.C08
 
@@ -175,25 +175,6 @@ theorem cache_psd_eq_dense_unscaled (b : Bool) (w x : List ℝ) {Fs : ℝ} (hFs 
   push_cast
   field_simp
 
-/-- today's `cache_to_psd` at the first kept bin of a band that does not start at DC (several
-    windows): half the intended (= dense) value -/
-theorem cache_psd_current_band_edge (b : Bool) (w : List ℂ) (nv : ℂ) (N step : ℕ) (x : List ℂ) (l nKept : ℕ)
-    (hl : 1 ≤ l) (hNy : ¬ (N % 2 = 0 ∧ l = N / 2)) (hL : nSeg x.length N step > 1) :
-    cachePsdCurrent b w nv N step x l nKept 0 = cachePsd b w nv N step x l 0 / 2 := by
-  unfold cachePsdCurrent cachePsd oneSided
-  simp only [hL, if_true, true_or, Nat.add_zero, c_div, c_mul, c_ofNat]
-  rw [if_neg (by omega), if_neg hNy]
-  push_cast; ring
-
-/-- today's `cache_to_psd` with a single window: every bin is halved, also the interior ones -/
-theorem cache_psd_current_single_window (b : Bool) (w : List ℂ) (nv : ℂ) (N step : ℕ) (x : List ℂ) (l nKept t : ℕ)
-    (hk : 1 ≤ l + t) (hNy : ¬ (N % 2 = 0 ∧ l + t = N / 2)) (hL : nSeg x.length N step = 1) :
-    cachePsdCurrent b w nv N step x l nKept t = cachePsd b w nv N step x l t / 2 := by
-  unfold cachePsdCurrent cachePsd oneSided
-  simp only [hL, gt_iff_lt, lt_self_iff_false, if_false, c_div, c_mul, c_ofNat]
-  rw [if_neg (by omega), if_neg hNy]
-  push_cast; ring
-
 /-! ### relative phase (single window) -/
 
 /-- **cache_to_relative_phase = angle of the dense cross-spectrum** when there is one window -/
@@ -209,32 +190,15 @@ theorem cache_relphase_eq_dense_angle (b : Bool) (w xi xj : List ℝ) {Fs : ℝ}
 
 /-! ### frequency vectors and defaults -/
 
-/-- **frequencies agree for even NFFT**: `np.linspace(0, Fs/2, NFFT/2+1)[k] = k·Fs/NFFT` -/
-theorem cache_freqs_eq_dense (Fs : ℂ) (N k : ℕ) (hN : N % 2 = 0) (hpos : 0 < N) :
-    linspaceFreq Fs N k = welchFreq Fs N k := by
-  unfold linspaceFreq welchFreq
-  simp only [c_mul, c_div, c_ofNat, Nat.add_sub_cancel]
-  obtain ⟨m, rfl⟩ : ∃ m, N = 2 * m := ⟨N / 2, by omega⟩
-  have hm : (m : ℂ) ≠ 0 := by
-    have : 0 < m := by omega
-    exact_mod_cast this.ne'
-  rw [Nat.mul_div_cancel_left m (by norm_num : 0 < 2)]
-  push_cast
-  field_simp
-
-/-- … and differ for odd NFFT: NFFT = 5, Fs = 5: bin 1 is at 5/4, the true bin frequency is 1 -/
-theorem cache_freqs_odd_counterexample : linspaceFreq (5 : ℂ) 5 1 ≠ welchFreq (5 : ℂ) 5 1 := by
-  unfold linspaceFreq welchFreq
+/-- **frequencies agree**, both parities of NFFT: `(np.fft.rfftfreq(NFFT) * Fs)[k] = k·Fs/NFFT`, the dense
+    grid (`np.fft.fftfreq(NFFT, 1/Fs)[k]`) -/
+theorem cache_freqs_eq_dense (Fs : ℂ) (N k : ℕ) : rfftFreq Fs N k = welchFreq Fs N k := by
+  unfold rfftFreq welchFreq
   simp only [c_mul, c_div, c_ofNat]
-  norm_num
+  ring
 
-/-- **defaults agree** (intended model: the cache takes the dense path's default overlap) -/
+/-- **defaults agree**: both paths derive the same default overlap from NFFT -/
 theorem defaults_agree (N : ℕ) : cacheDefaultOverlap N = denseDefaultOverlap N := rfl
-
-/-- today's two default-overlap expressions agree exactly for even NFFT -/
-theorem defaults_current_agree_iff_even (N : ℕ) :
-    cacheDefaultOverlapCurrent N = denseDefaultOverlap N ↔ N % 2 = 0 := by
-  unfold cacheDefaultOverlapCurrent denseDefaultOverlap; omega
 
 /-! ### non-vacuity -/
 
